@@ -84,6 +84,23 @@ prop("C16", "exploration",
           "moved; non-trivial = at least one monitored observation of a non-empty library; distinct = new plan digest reaching "
           "a new observation hash")
 
+prop("C14", "fault_enumeration",
+     quick=[("atomic", "fast", 320)],
+     thorough=[("atomic", "fast", 12000), ("atomic", "san", 400)],
+     relevant=["atomic_pairs"],
+     rule="each run = (pre-state S from a seeded fault-free history on an on-disk library, one public mutating call); the call is "
+          "dry-run from S, then re-executed from S once per fault position: every statement x {BUSY, ERROR, READONLY} (F1, "
+          "exhaustive), every VFS call addressed as (method, file, ordinal) up to 256 (F3), every VM tick up to 256 (F2), up to 64 "
+          "SQLite allocations (F4); a run is non-trivial if its probe call succeeds fault-free and was enumerated, distinct if its "
+          "plan digest is new and it reached a new observation hash",
+     assumptions=["F1 models the SQLite error classes that leave the transaction open (BUSY, ERROR/CONSTRAINT-like, READONLY) at the "
+                  "statement boundary without executing the statement; for it the state must equal the pre-state exactly",
+                  "F2-F4 take SQLite's real error paths; SQLite can report such an error after the commit point (xUnlock failure, "
+                  "progress-handler interrupt delivered at statement end), so for them the oracle is all-or-nothing: the state must be "
+                  "exactly the pre-state or exactly the fault-free post-state",
+                  "the outer loop over (state, call) pairs is sampled; the inner loop over fault positions is exhaustive for F1 and, "
+                  "within the stated caps, for F2/F3"])
+
 TIER_DEFAULT_SEED = {"quick": 1, "thorough": 20260929}
 
 
@@ -232,6 +249,7 @@ class Collector:
         self.sim_vfs = 0
         self.truncated = 0
         self.schemas = {}
+        self.enum = {}
 
     def machinery_error(self, msg):
         self.errors.append(msg)
@@ -270,12 +288,26 @@ class Collector:
                 self.distinct_nontrivial += 1
         if dg:
             self.digests.add(dg)
+        en = res.get("enumeration")
+        if en:
+            ek = f"{en['op']}|{en['family']}"
+            e = self.enum.setdefault(ek, {"pairs": 0, "statements_max": 0, "f1": 0, "f2": 0, "f3": 0, "f4": 0,
+                                          "attempts": 0, "faults_fired": 0, "threw": 0, "completed": 0,
+                                          "f3_all_exhaustive": True})
+            e["pairs"] += 1
+            e["statements_max"] = max(e["statements_max"], en["statements"])
+            e["f1"] += en["f1_positions"]; e["f2"] += en["f2_positions"]
+            e["f3"] += en["f3_positions"]; e["f4"] += en["f4_positions"]
+            e["attempts"] += en["attempts"]; e["faults_fired"] += en["faults_fired"]
+            e["threw"] += en["threw"]; e["completed"] += en["completed"]
+            e["f3_all_exhaustive"] = e["f3_all_exhaustive"] and en["f3_exhaustive"]
         vk = viol_keys(res, profile)
         if vk:
             pp["violating_runs"] += 1
         for (p, key, detail) in vk:
             if p == self.pid:
-                self.own.setdefault(key, []).append((profile, variant, res["run"], detail, res.get("plan")))
+                plan = res.get("derived", {}).get(key) or res.get("plan")
+                self.own.setdefault(key, []).append((profile, variant, res["run"], detail, plan))
             else:
                 self.other[p] = self.other.get(p, 0) + 1
                 self.other_keys[key] = self.other_keys.get(key, 0) + 1
@@ -341,7 +373,7 @@ def minimise(serve, plan, key, profile, budget=300):
         if used >= budget:
             break
         st = steps[i]
-        if "fault" in st:
+        if "fault" in st and not plan["config"].get("profile", "").startswith("atomic"):
             c = [dict(s) for s in steps]
             del c[i]["fault"]
             if test(c):
@@ -410,21 +442,38 @@ def process_violation(pid, key, occ, seed):
     return "violation", path
 
 
+class KnownSet:
+    """Open findings of one property: exact class keys and/or key regexes."""
+
+    def __init__(self):
+        self.exact = set()
+        self.regex = []
+
+    def __contains__(self, key):
+        import re
+        return key in self.exact or any(re.fullmatch(r, key) for r in self.regex)
+
+
 def check_known(pid):
-    """Replay stored open findings of this property; returns set of keys still open."""
-    open_keys = set()
+    """Replay stored open findings of this property; returns the set of open keys."""
+    import re
+    ks = KnownSet()
     for f in load_known():
         if f.get("property") != pid or f.get("status") != "open":
             continue
-        open_keys.add(f["key"])
+        if "key" in f:
+            ks.exact.add(f["key"])
+        if "key_regex" in f:
+            ks.regex.append(f["key_regex"])
         rp = os.path.join(VERIF, f["replay"])
         data = json.load(open(rp))
         keys, _ = fresh_replay(data.get("variant", "fast"), rp)
-        if f["key"] in keys:
+        hit = [k for k in keys if k == f.get("key") or ("key_regex" in f and re.fullmatch(f["key_regex"], k))]
+        if hit:
             log(f"KNOWN-FINDING: property={pid} {f['what']}")
         else:
-            log(f"note: known finding {f['key']} no longer reproduces from {f['replay']}")
-    return open_keys
+            log(f"note: known finding '{f['what'][:80]}' no longer reproduces from {f['replay']}")
+    return ks
 
 
 def write_evidence(pid, tier, seed, col, wall, violations, known_hits, samples, extra=None):
@@ -514,7 +563,13 @@ def cmd_check(pid, tier):
             log(f"NONDETERMINISM {info}")
             status = 2
     wall = time.time() - t0
-    write_evidence(pid, tier, seed, col, wall, len(new), known_hits, samples)
+    extra = None
+    if col.enum:
+        tot = {k: sum(e[k] for e in col.enum.values()) for k in ("pairs", "f1", "f2", "f3", "f4", "attempts", "faults_fired", "threw", "completed")}
+        extra = {"fault_enumeration": {"per_operation_and_family": col.enum, "totals": tot,
+                                       "f1_exhaustive_within_each_pair": True,
+                                       "outer_loop": "sampled (state, call) pairs"}}
+    write_evidence(pid, tier, seed, col, wall, len(new), known_hits, samples, extra)
     log(f"property={pid} tier={tier} runs={col.runs} relevant={col.relevant_runs} distinct_nontrivial={col.distinct_nontrivial} "
         f"states={len(col.states)} own_violation_classes={len(new)} other_hits={sum(col.other.values())} wall={wall:.1f}s")
     return status
